@@ -19,7 +19,7 @@ def run(tier):
         'update(next c bytes, c=0..L-n, source address = a mod 64, exact-size heap block) and every final, executed on the real '
         'context with its dead bytes overwritten (0x00 and 0xA5; both for the first alignments of the list, alternating after); '
         'oracle: successor == the single-update context of n+c bytes, final == reference digest of the prefix and context wiped; '
-        'one-shot/hex entry points on every prefix; length-encoding carries from preset byte counters.  quick: 9 builds, counter '
+        'one-shot/hex entry points on every prefix; length-encoding carries from preset byte counters.  quick: 10 builds (gcc -mssse3 does not compile), counter '
         'pattern L=2 blocks+1 x alignments {0,1,3,4,8,16,31,32,63}, other three patterns L=1 block+1 x {0,1,31}; thorough: the '
         'whole build matrix with L=3 blocks+1 (other patterns 2 blocks+1), plus the all-transforms build with every pattern at '
         'L=4 blocks+1 and all 64 alignments for the counter pattern.  A transition is non-trivial when c>0 and it was confluent')
